@@ -203,4 +203,23 @@ example : unpack ⟨8, 8, 4⟩ 8 ([2, 0, 0, 0] ++ zeros 4 ++ zeros 24) = .ok ⟨
 example : (unpack ⟨8, 8, 4⟩ 4 ([2, 0, 0, 0] ++ zeros 4 ++ zeros 24)).isErr = true := by decide
 example : (unpack ⟨1, 1, 16⟩ 0 (List.replicate 20 0xff)).isErr = true := by decide
 
+/-- Length-prefix types with an alignment requirement of their own (e.g. the primitive `u16`, which
+    satisfies the `PodLength` bounds) are not supported: every opening, initialisation and size
+    computation is an error — never a panic — and a buffer-taking operation returns the buffer
+    untouched.  For align-1 prefix types the guard is the identity, so all theorems above apply. -/
+theorem C10_aligned_prefix {α} (alignL : Nat) (r : Res α) (b : Bytes) (rb : Bytes × Res α) :
+    (alignL ≠ 1 → guardL alignL r = .err .invalidArgument ∧ guardLB alignL b rb = (b, .err .invalidArgument)) ∧
+    (alignL = 1 → guardL alignL r = r ∧ guardLB alignL b rb = rb) ∧
+    (r ≠ .panic → guardL alignL r ≠ .panic) := by
+  refine ⟨fun h => ?_, fun h => ?_, fun h => ?_⟩
+  · simp [guardL, guardLB, h]
+  · simp [guardL, guardLB, h]
+  · unfold guardL; split
+    · simp
+    · exact h
+
+/-- the one-byte prefix (`u8`) is within the theorems' range -/
+example : WfP ⟨8, 8, 1⟩ := by unfold WfP; decide
+example : unpack ⟨4, 4, 1⟩ 4 ([2] ++ zeros 3 ++ zeros 8) = .ok ⟨2, 2⟩ := by decide
+
 end C10
